@@ -119,7 +119,15 @@ void Alarm::refresh() {
     state_ = State::kInited;
     sp_timer_ev_->disable();
     target_utc_sec_ = 0;    //! 如果不清0，那么每refresh()一次都会往后延一天
-    fired_utc_sec_ = 0;
+
+    //! 已触发的时间点只在"定时器提前了一点点触发"的窗口内保留：此时系统时间还没走到该时间点，
+    //! 若清0，activeTimer() 从当前时间算起，又会算出同一个时间点，它就触发两次
+    //! （在回调里 refresh()，如 WorkdayAlarm 的回调里更新 WorkdayCalendar，必然落在这个窗口内）。
+    //! 其它情况（含系统时间被回拨）都清0，按当前时间重新计算
+    uint32_t curr_utc_sec = 0;
+    if (!GetCurrentUtcTime(curr_utc_sec) || curr_utc_sec >= fired_utc_sec_ || (fired_utc_sec_ - curr_utc_sec) > 1)
+      fired_utc_sec_ = 0;
+
     activeTimer();
   }
 }
